@@ -14,7 +14,8 @@ RUNS = {"quick": 10000, "thorough": 150000}
 BUDGET_S = {"quick": 60, "thorough": 900}
 RULE = ("seeded outcome histories (success, exception, BaseException, timeout, no-result, malformed, unknown, save failure, "
         "failing pre_execute/on_error/post_execute/post_save hook) at random arrival/duration timings, followed by a saturation "
-        "probe of A+2 long tasks; non-trivial = overlap or a fault fired; distinct = distinct interleaving signature")
+        "probe of A+2 long tasks; 10% of the single-worker runs use taskiq.api.run_receiver_task with a listen() failure (limit judged "
+        "per receiver session), 10% the real cli start_listen entry; failing acks and cancelled awaits included; non-trivial = overlap or a fault fired; distinct = distinct interleaving signature")
 
 KNOBS = {
     "n_msgs": (0, 12),
